@@ -201,6 +201,7 @@ def h(
     axis_names: Optional[Iterable[str]] = None,
     dim: Optional[int] = None,
     weights: Optional[ArrayLike] = None,
+    dtype: Optional[DTypeLike] = None,
     **kwargs,
 ) -> HistogramND:
     """Facade function to create n-dimensional histograms.
@@ -259,6 +260,7 @@ def h(
         axis_names=axis_names,
         name=name,
         title=title,
+        dtype=dtype,
     )
 
 
